@@ -42,7 +42,10 @@ DEGENERATE = {
     "imports-itself": {"__init__.py": "", "m.py": "import proj.m\nfrom proj import m\nfrom . import m\n", "p/__init__.py": "from . import __init__\n", "p/q.py": "import proj.p.q\n"},
     "one-statement-many-times": {"__init__.py": "", "a.py": "import proj.b\n" * 5 + "from proj import b\n" * 3, "b.py": "import proj.a\nimport proj.a\n"},
     "single-chain": {"a/b/c/d/leaf.py": "import proj.a\nimport proj.a.b.c.d.leaf\nfrom proj.a.b import c\n"},
-    "pycache-with-sources": {"__init__.py": "", "a.py": "import proj.b\n", "b.py": "", "__pycache__/a.cpython-312.pyc": "\x00", "__pycache__/stale.py": "import proj.a\n", "p/__pycache__/x.py": "import proj.b\n", "p/__init__.py": ""},
+    "pycache-with-sources": {"__init__.py": "", "a.py": "import proj.b\n", "b.py": "", "__pycache__/a.cpython-312.pyc": "\x00", "__pycache__/stale.py": "import proj.a\n", "p/__pycache__/x.py": "import proj.b\n", "p/__init__.py": "",
+                             # names that merely CONTAIN the word: matched by the documented default '*__pycache__*' as well
+                             "__pycache__old/y.py": "import proj.a\n", "legacy__pycache__helpers.py": "import proj.b\n", "p/my__pycache__/z.py": ""},
+    "identical-files-in-different-packages": {"__init__.py": "", "a/__init__.py": "from . import impl\nfrom .impl import core\n", "a/impl/__init__.py": "", "a/impl/core.py": "", "deep/__init__.py": "", "deep/b/__init__.py": "from . import impl\nfrom .impl import core\n", "deep/b/impl/__init__.py": "", "deep/b/impl/core.py": "", "x/same.py": "from . import other\nimport proj.a\n", "x/other.py": "", "y/same.py": "from . import other\nimport proj.a\n", "y/other.py": ""},
     "one-file-per-level": {"top.py": "import proj.l1.mid\n", "l1/mid.py": "import proj.l1.l2.low\nimport json.decoder\n", "l1/l2/low.py": "import proj.top\nimport os.path\n"},
 }
 PRESETS = [
@@ -51,6 +54,9 @@ PRESETS = [
     ("", {"level_limit": 1}),
     ("", {"level_limit": 2}),
     ("", {"level_limit": 9}),
+    ("", {"level_limit": 10**6}),
+    ("", {"level_limit": __import__("sys").maxsize}),
+    ("leaf", {"level_limit": __import__("sys").maxsize}),
     ("", {"exclusions": ("*",)}),
     ("", {"exclusions": ("**",)}),
     ("", {"exclusions": ("",)}),
@@ -60,6 +66,11 @@ PRESETS = [
     ("", {"exclusions": ("*proj",)}),
     ("", {"exclude_external_libraries": False, "external_exclusions": ("*",)}),
     ("", {"exclude_external_libraries": False, "external_exclusions": ("os",), "level_limit": 1}),
+    ("", {"exclude_external_libraries": False, "regex_external_exclusions": ("",)}),
+    ("", {"exclude_external_libraries": False, "regex_external_exclusions": ("json", "")}),
+    ("", {"exclude_external_libraries": False, "external_exclusions": ("",)}),
+    ("", {"exclude_external_libraries": False, "external_exclusions": ("json",)}),
+    ("", {"exclude_external_libraries": False, "regex_external_exclusions": (r"os\.",)}),
     ("leaf", {}),
     ("leaf", {"level_limit": 1}),
     ("leaf", {"exclude_external_libraries": False}),
@@ -72,7 +83,7 @@ def degenerate(pid, acc):
         dirs = [d for d in trees.all_dirs(spec) if d]
         leaf = max(dirs, key=lambda d: (d.count("/"), d)) if dirs else ""
         for where, o in PRESETS:
-            for entry in ("path", "object", "positional"):
+            for entry in ("path", "object", "positional", "object-positional", "keywords"):
                 try:
                     project(pid, f"degenerate:{name}", acc, fixed=(spec, leaf if where == "leaf" else "", dict(o), entry))
                 except Exception as e:  # noqa: BLE001  (a scan that raises has been recorded by the scan monitor)
@@ -145,6 +156,14 @@ def _scan(root, mp_abs, o, entry, case, acc):
     HUB.case = case
     if entry == "object":
         get_evaluable_architecture_for_module_objects(_fake_module(root), _fake_module(mp_abs), **o)
+    elif entry == "object-positional":
+        order = ["exclusions", "exclude_external_libraries", "level_limit", "regex_exclusions", "external_exclusions", "regex_external_exclusions"]
+        defaults = {"exclusions": ("*__pycache__*",), "exclude_external_libraries": True, "level_limit": None, "regex_exclusions": None, "external_exclusions": None, "regex_external_exclusions": None}
+        get_evaluable_architecture_for_module_objects(_fake_module(root), _fake_module(mp_abs), *[o.get(k, defaults[k]) for k in order])
+        acc.count("scans_with_all_arguments_passed_by_position")
+    elif entry == "keywords":
+        get_evaluable_architecture(root_path=root, module_path=mp_abs, **o)
+        acc.count("scans_with_every_argument_passed_by_keyword")
     elif entry == "positional":
         # the same request with every argument passed by position, in the documented order
         order = ["exclusions", "exclude_external_libraries", "level_limit", "regex_exclusions", "external_exclusions", "regex_external_exclusions"]
@@ -180,7 +199,7 @@ def project(pid, pseed, acc, fixed=None):
             o.pop("regex_exclusions", None)
         else:
             o.pop("level_limit")
-    entry = "object" if rnd.random() < 0.25 else "positional" if rnd.random() < 0.15 else "path"
+    entry = "object" if rnd.random() < 0.25 else rnd.choice(["positional", "object-positional", "keywords"]) if rnd.random() < 0.25 else "path"
     if fixed:
         spec, mp_rel, o, entry = fixed
     root = trees.write_tree(spec)
@@ -206,7 +225,7 @@ def project(pid, pseed, acc, fixed=None):
             attribute_scan_findings(se, {"edge-missing": "C02", "edge-extra": "C02"}, case)
         elif pid == "C04":
             attribute_scan_findings(se, {"nodes": "C04", "hierarchy": "C04"} if not include else {"nodes": "C04"}, case)
-            other = _scan(root, mp_abs, o, "path" if entry == "object" else "object", dict(case, entry="other"), acc)
+            other = _scan(root, mp_abs, o, "path" if entry.startswith("object") else "object", dict(case, entry="other"), acc)
             acc.count("entry_point_equivalences")
             if other.state != se.state:
                 HUB.violation("C04", "module-object-entry-point-differs", "module-object and path entry points built different architectures under the same options", {"options": case["options"], "mp": mp_rel, "nodes_diff": sorted(other.nodes ^ se.nodes), "imports_diff": sorted(other.imps ^ se.imps)})
